@@ -516,6 +516,35 @@ def make_colored_notdef_case(seed, fmt="picosvg"):
             "codepoints": [list(c) for c, _, _ in glyphs], "glyph_names": [n for _, n, _ in glyphs], "family": "colored-notdef"}
 
 
+def make_use_override_case(seed, fmt="picosvg"):
+    """one outline several times WITHIN a glyph (and once more in a second glyph) where the copies differ from the first in opacity only, in fill
+    only, or in both — the first being black (no fill attribute at all) or coloured: every paint attribute a <use> cannot override"""
+    import random
+
+    r = random.Random(seed)
+    tri = lambda dx, dy: f"M{12 + dx},{50 + dy} L{40 + dx},{14 + dy} L{52 + dx},{56 + dy} Z"
+    first_fill = r.choice(["#000000", "#000000", "#FF0000"])
+    o1, o2, o3 = r.sample(["0.5", "0.8", "0.3", None], 3)
+    if o1 is None and r.random() < 0.7:
+        o1, o2 = o2, o1                                     # mostly: the FIRST occurrence is the translucent one
+    variants = [
+        (first_fill, o1),
+        (first_fill, o2),                                   # opacity only
+        (r.choice(["#0000FF", "#00AA00"]), o1),             # fill only
+        (r.choice(["#FFCC00", "#7F3FBF"]), o3),             # both
+    ]
+    def path(d, fill, op):
+        return f'<path d="{d}"' + (f' fill="{fill}"' if fill != "#000000" or r.random() < 0.3 else "") + (f' opacity="{op}"' if op else "") + "/>"
+    g0 = "".join(path(tri(14 * i, 9 * i), f, o) for i, (f, o) in enumerate(variants[:3]))
+    # half of the cases keep the outline inside ONE glyph (reuse across glyphs goes through <defs> anyway and is a different path of the code)
+    other = '<path d="M5,80 L95,80 L95,92 L5,92 Z" fill="#10A0C0"/>'
+    g1 = (path(tri(30, 30), *variants[3]) if r.random() < 0.5 else '<path d="M20,20 L70,25 L60,60 L30,70 L10,40 Z" fill="#7F3FBF" opacity="0.5"/>') + other
+    svgs = [f'<svg xmlns="http://www.w3.org/2000/svg" viewBox="0 0 100 100">{g}</svg>' for g in (g0, g1)]
+    cfg = {"color_format": fmt, "upem": 1024, "ascender": 950, "descender": -250, "width": 1275, "reuse_tolerance": 0.1, "keep_glyph_names": True}
+    return {"id": f"use-override:{fmt}:{seed}", "seed": seed, "fmt": fmt, "svgs": svgs, "config": cfg, "codepoints": [[0xE000], [0xE001]],
+            "family": "use-override"}
+
+
 def make_shared_gradient_case(seed, fmt="picosvg"):
     """glyphs that share NO outline (so they end up in different OT-SVG documents) but use identical gradient definitions"""
     import random
